@@ -111,8 +111,9 @@ pub fn canon(q: &Query, r: &Result<QueryReply, QueryError>) -> String {
         Ok(QueryReply::UnitList(l)) => format!("list {}", l.list.iter().map(entry).collect::<Vec<_>>().join(";")),
         Ok(QueryReply::Date(_)) => "other date".into(),
         Ok(QueryReply::Substance(_)) => "other substance".into(),
-        Ok(QueryReply::Factorize(_)) => "other factorize".into(),
-        Ok(QueryReply::UnitsFor(_)) => "other unitsfor".into(),
+        Ok(QueryReply::Factorize(f)) => format!("factorize {}", f.factorizations.iter().map(|x| x.units.iter().map(|(n, k)| format!("{}:{}", enc_name(n), k)).collect::<Vec<_>>().join(",")).collect::<Vec<_>>().join(";")),
+        Ok(QueryReply::UnitsFor(u)) => format!("unitsfor {} {}", u.of.raw_dimensions.as_ref().map(fmt_dim).unwrap_or_else(|| "?".into()),
+            u.units.iter().map(|g| format!("{}:{}", g.category.as_ref().map(|c| hex(c)).unwrap_or_else(|| "-".into()), g.units.iter().map(|n| enc_name(n)).collect::<Vec<_>>().join(","))).collect::<Vec<_>>().join(";")),
         Ok(QueryReply::Search(_)) => "other search".into(),
     }
 }
